@@ -341,23 +341,23 @@ Proof. intros i. unfold two_layers, cfg_layers. destruct (i =? 0); auto. Qed.
 
 (** a well-behaved history: parent dropped before its child, out-of-order exit, drop while entered, slot reuse *)
 Definition h_good : list op :=
-  [ OSetDef 0 (Some 0); ONewSpan 0 1 PRoot (0%N, 0%N); OEnter 0 1; ONewSpan 0 2 PCtx (1%N, 0%N); OEnter 0 2;
-    ODrop 0 1; OExit 0 0; ONewSpan 0 3 (PExplicit 2) (2%N, 0%N); OExit 0 1; ODrop 0 2; ODrop 0 3;
-    ONewSpan 0 4 PRoot (2%N, 1%N); ODrop 0 4 ].
+  [ OSetDef 0 (Some 0); ONewSpan 0 2 PRoot (0%N, 0%N); OEnter 0 2; ONewSpan 0 4 PCtx (1%N, 0%N); OEnter 0 4;
+    ODrop 0 2; OExit 0 0; ONewSpan 0 6 (PExplicit 4) (2%N, 0%N); OExit 0 1; ODrop 0 4; ODrop 0 6;
+    ONewSpan 0 8 PRoot (2%N, 1%N); ODrop 0 8 ].
 
 (** F2, first replay of DESIGN 1.2: `one` in registry 0 and `two` in registry 1 share the raw id; the guard of `one` is
     dropped while registry 1 is the thread's default *)
 Definition f2_foreign : list op :=
-  [ OSetDef 0 (Some 0); ONewSpan 0 1 PRoot (0%N, 0%N); OSetDef 0 (Some 1); ONewSpan 0 2 PRoot (0%N, 0%N);
-    OSetDef 0 (Some 0); OClone 0 1 1001; OEnter 0 1001; OSetDef 0 (Some 1); OExitH 0 1001; ODrop 0 1001;
-    OSetDef 0 (Some 0); ODrop 0 1 ].
+  [ OSetDef 0 (Some 0); ONewSpan 0 2 PRoot (0%N, 0%N); OSetDef 0 (Some 1); ONewSpan 0 4 PRoot (0%N, 0%N);
+    OSetDef 0 (Some 0); OClone 0 2 2002; OEnter 0 2002; OSetDef 0 (Some 1); OExitH 0 2002; ODrop 0 2002;
+    OSetDef 0 (Some 0); ODrop 0 2 ].
 (** F2, second replay: the default guard is dropped before the span guard *)
 Definition f2_nodefault : list op :=
-  [ OSetDef 0 (Some 0); ONewSpan 0 1 PRoot (0%N, 0%N); OClone 0 1 1001; OEnter 0 1001; ODrop 0 1; OUnsetDef 0;
-    OExitH 0 1001; ODrop 0 1001 ].
+  [ OSetDef 0 (Some 0); ONewSpan 0 2 PRoot (0%N, 0%N); OClone 0 2 2002; OEnter 0 2002; ODrop 0 2; OUnsetDef 0;
+    OExitH 0 2002; ODrop 0 2002 ].
 (** F2, third route: the parent reference of a child is released (Clear for DataInner) with no default *)
 Definition f2_parent : list op :=
-  [ OSetDef 0 (Some 0); ONewSpan 0 1 PRoot (0%N, 0%N); ONewSpan 0 2 (PExplicit 1) (1%N, 0%N); ODrop 0 1; OUnsetDef 0; ODrop 0 2 ].
+  [ OSetDef 0 (Some 0); ONewSpan 0 2 PRoot (0%N, 0%N); ONewSpan 0 4 (PExplicit 2) (1%N, 0%N); ODrop 0 2; OUnsetDef 0; ODrop 0 4 ].
 
 Lemma h_good_ok : WellFormed two_layers None h_good /\ OwnDefault two_layers None h_good /\
   map (fun q => closed_n 1 q (Tr two_layers None h_good)) [0; 1; 2; 3] = [1; 1; 1; 1] /\
@@ -375,7 +375,7 @@ Definition never (layers : inst -> nat) (g : option inst) (h : list op) : Prop :
 Lemma f2_foreign_refutes :
   WellFormed two_layers None f2_foreign /\ ~ OwnDefault two_layers None f2_foreign /\
   early two_layers None f2_foreign /\ never two_layers None f2_foreign /\
-  st_panicked (St two_layers None (f2_foreign ++ [OSetDef 0 (Some 1); ODrop 0 2])) = true.
+  st_panicked (St two_layers None (f2_foreign ++ [OSetDef 0 (Some 1); ODrop 0 4])) = true.
 Proof.
   split; [vm_compute; reflexivity|]. split; [unfold OwnDefault; vm_compute; discriminate|]. split; [|split].
   - exists 1, (0%N, 0%N), 1, 1. vm_compute. repeat split; auto.
@@ -405,7 +405,7 @@ Proof.
   split.
   - exists two_layers, None, f2_foreign. destruct f2_foreign_refutes as (A & B & C & D & E).
     split; [apply two_layers_ok|]. repeat split; auto.
-    exists [OSetDef 0 (Some 1); ODrop 0 2]. split; [vm_compute; reflexivity | exact E].
+    exists [OSetDef 0 (Some 1); ODrop 0 4]. split; [vm_compute; reflexivity | exact E].
   - exists two_layers, None, f2_nodefault. destruct f2_nodefault_refutes as (A & B & C).
     split; [apply two_layers_ok|]. auto.
 Qed.
